@@ -533,6 +533,8 @@ func (e *Engine) installSpecObjs(pkg *types.Package) {
 	mk("hashedIsInt", []types.Type{anyT, types.Typ[types.Int], types.Typ[types.Uint64]}, boolT, false)
 	mk("hashedSame", []types.Type{anyT, types.Typ[types.Int], anyT, types.Typ[types.Int]}, boolT, false)
 	mk("hashedKept", []types.Type{anyT, types.Typ[types.Int]}, boolT, false)
+	mk("firstCall", []types.Type{types.Typ[types.String]}, types.Typ[types.Int], false)
+	mk("lastCall", []types.Type{types.Typ[types.String]}, types.Typ[types.Int], false)
 	mk("called", []types.Type{types.Typ[types.String]}, boolT, false)
 	mk("lastErr", []types.Type{types.Typ[types.String]}, types.Universe.Lookup("error").Type(), false)
 	mk("lastStr", []types.Type{types.Typ[types.String]}, types.Typ[types.String], false)
